@@ -2169,6 +2169,9 @@ func (ts *TokenStore) revokeInternal(ctx context.Context, saltedID string, skipO
 			return fmt.Errorf("failed to scan for children: %w", err)
 		}
 		for _, child := range children {
+			// The listing is relative to this token's prefix in the parent index
+			index := saltedID + "/" + child
+
 			var childNSID string
 			childCtx := revokeCtx
 			child, childNSID = namespace.SplitIDFromString(child)
@@ -2190,7 +2193,7 @@ func (ts *TokenStore) revokeInternal(ctx context.Context, saltedID string, skipO
 			}
 			if entry == nil {
 				// Seems it's already revoked, so nothing to do here except delete the index
-				err = ts.parentView(tokenNS).Delete(ctx, child)
+				err = ts.parentView(tokenNS).Delete(ctx, index)
 				if err != nil {
 					return fmt.Errorf("failed to delete child entry: %w", err)
 				}
@@ -2221,7 +2224,7 @@ func (ts *TokenStore) revokeInternal(ctx context.Context, saltedID string, skipO
 			// paths are not deeply nested (i.e. they are simply
 			// parentPrefix/<parentID>/<childID>), we can simply call view.Delete instead
 			// of logical.ClearView
-			err = ts.parentView(tokenNS).Delete(ctx, child)
+			err = ts.parentView(tokenNS).Delete(ctx, index)
 			if err != nil {
 				return fmt.Errorf("failed to delete child entry: %w", err)
 			}
